@@ -2,6 +2,7 @@ import OapiVerif.Model.Names
 import OapiVerif.Gen.C01
 import OapiVerif.Proofs.Comment
 import OapiVerif.Proofs.RefPath
+import OapiVerif.Proofs.TypeDedup
 /-!
 C01 — Generated code compiles, for every supported spec and configuration.
 
@@ -186,3 +187,77 @@ theorem C01_remote_reference_old_witness :
     refPathToGoType exEnv (s "common.json#/Pet") = .ok (s "externalRef0.Pet") := by decide
 
 end OapiVerif.RefPath
+
+namespace OapiVerif.TypeDedup
+
+/-- `GenerateTypes`, success: **every type name is declared once** (two declarations of one name do not compile), the
+declarations are exactly the collected ones (none dropped, none invented) and they keep their order. For every list of
+collected definitions. -/
+theorem C01_types_declared_once (ts out : List TD) (h : generateTypes ts = .ok out) :
+    (out.map (·.name)).Nodup ∧ (∀ t, t ∈ out ↔ t ∈ ts) ∧ out.Sublist ts := by
+  obtain ⟨h1, h2, l, hl, ho⟩ := go_ok ts [] out h (by simp)
+  refine ⟨h1, fun t => by simpa using h2 t, ?_⟩
+  simpa [ho] using hl
+
+/-- `GenerateTypes`, refusal: exactly when two collected definitions share a name and differ (the error names it);
+equal definitions under one name are folded, never refused. -/
+theorem C01_types_conflict_rejected_iff (ts : List TD) :
+    (∃ e, generateTypes ts = .error e) ↔ ∃ a ∈ ts, ∃ b ∈ ts, a.name = b.name ∧ a.body ≠ b.body := by
+  constructor
+  · rintro ⟨e, h⟩
+    obtain ⟨a, b, ha, hb, hae, hbe, hne⟩ := go_err ts [] e h
+    exact ⟨a, by simpa using ha, b, hb, by rw [hae, hbe], hne⟩
+  · rintro ⟨a, ha, b, hb, hn, hne⟩
+    cases hr : generateTypes ts with
+    | error e => exact ⟨e, rfl⟩
+    | ok out =>
+      obtain ⟨h1, h2, _⟩ := C01_types_declared_once ts out hr
+      have := inj_of_nodup_map (·.name) out h1 a ((h2 a).mpr ha) b ((h2 b).mpr hb) hn
+      exact absurd (by rw [this]) hne
+
+theorem C01_types_error_names_the_clash (ts : List TD) (e : Str) (h : generateTypes ts = .error e) :
+    ∃ a ∈ ts, ∃ b ∈ ts, a.name = e ∧ b.name = e ∧ a.body ≠ b.body := by
+  obtain ⟨a, b, ha, hb, hae, hbe, hne⟩ := go_err ts [] e h
+  exact ⟨a, by simpa using ha, b, hb, hae, hbe, hne⟩
+
+/-- non-vacuity: a repeated equal definition is folded, a differing one refused -/
+example : generateTypes [⟨[80], 1⟩, ⟨[81], 2⟩, ⟨[80], 1⟩] = .ok [⟨[80], 1⟩, ⟨[81], 2⟩] ∧
+    generateTypes [⟨[80], 1⟩, ⟨[81], 2⟩, ⟨[80], 3⟩] = .error [80] := by decide
+
+/-- `constructImportMapping`: every document of the mapping gets a package name, and **two documents get the same name
+exactly when they are mapped to the same package path** — one import per package, no two packages under one name
+(either would not compile). For every mapping. -/
+theorem C01_import_names_distinct_iff_paths (m : List (Str × Str)) :
+    (∀ d p, (d, p) ∈ m → ∃ n, (d, n, p) ∈ construct m) ∧
+    (∀ d₁ n₁ p₁ d₂ n₂ p₂, (d₁, n₁, p₁) ∈ construct m → (d₂, n₂, p₂) ∈ construct m → (n₁ = n₂ ↔ p₁ = p₂)) := by
+  have hmem : ∀ d n p, (d, n, p) ∈ construct m → (d, p) ∈ m ∧ pkgName m p = some n := by
+    intro d n p h
+    unfold construct at h
+    obtain ⟨⟨d', p'⟩, hm, hx⟩ := List.mem_filterMap.mp h
+    cases hk : pkgName m p' with
+    | none => simp [hk] at hx
+    | some k =>
+      simp only [hk, Option.map_some, Option.some.injEq, Prod.mk.injEq] at hx
+      obtain ⟨rfl, rfl, rfl⟩ := hx
+      exact ⟨hm, hk⟩
+  constructor
+  · intro d p h
+    obtain ⟨n, hn⟩ := pkgName_some m d p h
+    refine ⟨n, ?_⟩
+    unfold construct
+    exact List.mem_filterMap.mpr ⟨(d, p), h, by simp [hn]⟩
+  · intro d₁ n₁ p₁ d₂ n₂ p₂ h1 h2
+    obtain ⟨_, a⟩ := hmem _ _ _ h1
+    obtain ⟨_, b⟩ := hmem _ _ _ h2
+    constructor
+    · intro e; subst e; exact pkgName_inj m p₁ p₂ n₁ a b
+    · intro e; subst e; rw [a] at b; exact Option.some.inj b
+
+def s (x : String) : Str := x.toList.map Char.toNat
+
+/-- non-vacuity: two documents of one package share `externalRef0`, a second package is `externalRef1` -/
+example : construct [(s "b.yaml", s "x/pkg"), (s "a.yaml", s "x/pkg"), (s "c.yaml", s "x/zzz"), (s "d.yaml", s "a/pkg")] =
+    [(s "b.yaml", s "externalRef1", s "x/pkg"), (s "a.yaml", s "externalRef1", s "x/pkg"),
+     (s "c.yaml", s "externalRef2", s "x/zzz"), (s "d.yaml", s "externalRef0", s "a/pkg")] := by decide
+
+end OapiVerif.TypeDedup
